@@ -24,7 +24,14 @@ theorem detached_array_child_leaves_parent_unchanged (fuel : Nat) (w : World) (x
   · right; rfl
 
 /-- … and the same when the recorded slot now holds something else (another value or another
-    container): the identity check precedes the write. -/
+    container): the identity check precedes the write.
+    VACUOUS ON VALID WORLDS (audit a5, S5): `hidx`, `hget`, `hother` contradict `MutIdxOk`, a clause
+    of the invariant (`C11.replaced_slot_hyps_contradict_invariant`) — `Array.Set` erases the index
+    of the child it overwrites, so "the slot now holds ANOTHER container" reaches the callback
+    through the index-unknown branch.  SUPERSEDED by `C11.overwritten_child_leaves_parent_unchanged`
+    (Props/C11Slot.lean) and `C11.detached_by_arrSet` + `C11.detached_*` (Props/C11W.lean).  Kept as a
+    reading of the identity check of the Go callback (array.go:813-822), which guards states with a
+    second, stale index (the dual-handle findings F2b). -/
 theorem replaced_slot_leaves_parent_unchanged (fuel : Nat) (w : World) (x : SlabID) (hi : HInfo) (cx : Ctx)
     (c : Cont) (pa : Arr) (idx : Nat) (el : Elem)
     (hh : AList.find? w.hinfo x = some hi) (hc : w.cont? x = some c)
